@@ -38,9 +38,7 @@ Verdict(o) ==
         impl == ImplContext(file, o.lineno, o.col)
         r == ImplShow(file, cnode, TRUE)
     IN IF o.code = "internal_error"
-       THEN IF Dev_VersionInfoCompare(f, o) THEN "dev:version-info-comparison-raises"
-            ELSE IF Dev_AliasKeyUnhashable(f, o) THEN "dev:type-alias-cache-key-unhashable"
-            ELSE IF Dev_ParamSpecSubstitution(f, o) THEN "dev:paramspec-substituted-by-non-signature"
+       THEN IF Dev_ParamSpecSubstitution(f, o) THEN "dev:paramspec-substituted-by-non-signature"
             ELSE "viol:InternalError"
        ELSE IF ~(o.code \in Codes) \/ o.msglen <= 0 THEN "viol:IllFormedDiagnostic"
        ELSE IF ~RefWellFormedPos(o, file)
